@@ -3,19 +3,24 @@ prop(
     quick=[("native", 16)],
     thorough=[("native", 16), ("asan", 8), ("valgrind", 8)],
     level="exploration",
-    min_evals={"quick": 200_000, "thorough": 5_000_000},
+    min_evals={"quick": 600_000, "thorough": 5_000_000},
     rule=(
         "certificate chains TA -> CA^k -> {CA, EE, router} (k in 0..3) built with the library's TbsCert under a pool of RSA keys, encoded, re-decoded and validated top-down; "
         "per certificate and family the resources are missing / inherit / a subset of the issuer's effective set (model) / an overclaim sticking out by one element, lying in a gap or straddling an issuer block; "
         "policy refuse or trim; windows with the evaluation instant on either end exactly. For every accepted link the validated v4/v6/AS blocks are compared with the interval-set model (claimed, trimmed, inherited, empty) and with the issuer's set (subset). "
         "Every second valid link gets single-point tampers that must be rejected: time one second outside either end, AKI missing / other (re-signed), signed by another key while claiming the issuer, SKI bit patched in the TBS and re-signed by the harness, "
         "bit flips inside the TBS bytes and the signature value (sampled; every bit of a few certificates in the thorough tier), validation under another issuer with the same subject name; for trust anchors inherit and a foreign self-signature. "
-        "A case signature is (leaf kind, depth, policy, per-family claim shape incl. overclaim kind, expected outcome) or (tamper kind, certificate kind); evaluations count validations and resource comparisons."
+        "Certificates written by the independent encoder: every second valid link is additionally re-issued (TBS patched with the harness DER writer, signed with the issuer key through aws-lc-rs) with its RFC 3779 IP or AS extension rewritten in shapes the builder cannot produce - "
+        "an address family (or the asnum choice) one, two or three times in any order, IPv6 before IPv4, empty lists, inherit next to blocks, an rdi member, block lists reversed / adjacent / overlapping / in range form, the whole extension present twice - with blocks inside the issuer or sticking out; "
+        "such a certificate may be rejected, but if it is accepted the union of everything written is the claim: no-overclaim with anything outside must fail, the validated set must equal that union (cut to the issuer under trim) and stay inside the issuer; the canonical shape must be accepted with exactly the model's set. "
+        "Every third valid link gets its AKI keyIdentifier / SKI rewritten with 0, 1, 10, 19, 21, 24, 32, 40 octets whose leading or trailing octets are the required value (primitive and constructed OCTET STRING in several segmentations), or the extension added a second time with another identifier: must be rejected on all routes (the right 20 octets in constructed form are only recorded). "
+        "A case signature is (leaf kind, depth, policy, per-family claim shape incl. overclaim kind, expected outcome), (tamper kind, certificate kind), (encoder shape: kind, policy, entry pattern, inside/outside, departures from builder output) or (key identifier, length, anchor, encoding, kind); evaluations count validations and resource comparisons."
     ),
     assumptions=[
         "RSA-2048 (and P-256 public keys for router certificates) only; default key-identifier names",
         "CRL checking is outside this property",
-        "certificates are built with the library's own TbsCert encoder (C05 checks it); SKI tampers and re-signing use the harness DER tools and aws-lc-rs directly",
+        "certificates are built with the library's own TbsCert encoder (C05 checks it); SKI tampers, rewritten resource / key identifier extensions and re-signing use the harness DER tools and aws-lc-rs directly",
+        "for a resource extension in a shape RFC 3779 / RFC 6487 do not allow (repeated family, wrong order, empty list, non-canonical block list) rejection and acceptance are both fine; on acceptance every written block counts as claimed",
         "flipped inputs that no longer decode count as rejected",
     ],
     level_text=(
@@ -24,6 +29,6 @@ prop(
         "Exploration is the right level: chains, resource sets and tamper positions are sampled from an unbounded space."
     ),
     level_note="Trusts aws-lc-rs for signing on the harness side, the interval model and the harness DER reader; sampled.",
-    technique="accept/reject + resource-set oracle over generated chains and single-point tampers; ASan, valgrind",
+    technique="accept/reject + resource-set oracle over generated chains, single-point tampers and issuer-signed certificates whose extensions come from an independent DER encoder; ASan, valgrind",
     design_ref="DESIGN.md §4 C01",
 )
